@@ -26,6 +26,15 @@ class CapturedPath:
       path, prev_edge = self._push_item_on_se_path(path, prev_edge, item)
     return path, prev_edge
 
+  def _is_first_item_edge(self, reverse = False):
+    # is the first (if reverse: last) segment of the path implied by an edge?
+    item = self.items[-1 if reverse else 0]
+    if isinstance(item.line, gfapy.line.edge.GFA2):
+      return True
+    elif isinstance(item.line, gfapy.line.group.Ordered):
+      return item.line._is_first_item_edge(reverse != (item.orient == "-"))
+    return False
+
   def _push_item_on_se_path(self, path, prev_edge, item):
     if isinstance(item.line, str):
       raise gfapy.RuntimeError(
@@ -68,6 +77,8 @@ class CapturedPath:
         for subpath_item in reversed(subpath):
           path, prev_edge = self._push_item_on_se_path(path, prev_edge,
               subpath_item.inverted())
+        # the reversed path ends with the first item of the nested group
+        prev_edge_subpath = item.line._is_first_item_edge()
       prev_edge = prev_edge_subpath
     elif isinstance(item.line, gfapy.line.unknown.Unknown):
       raise gfapy.RuntimeError(
